@@ -43,6 +43,10 @@ CLAIMS = {
          "Necessary and, for the listed reply kinds, sufficient size conditions: for every (tracker, back end, reply kind) the worst-case size a + b*limit derived from the code is compared with the buffer constant; a limit not bounded by its type must be bounded by a validation that dominates the first thread spawn and whose result is propagated - its inequality is extracted and solved (udp: 454 / 112 peers, 170 torrents; http: 443 peers); the http scrape count is bounded by what fits a request buffer; defaults fit. The rule exposed six genuine defects, repaired by fix: commits ffb3202 and 23f73cc; the io_uring request buffer is a recorded known finding.",
          "Not decided: OS-level short writes (outside the property's quantifier); itoa digit bound and the 31-byte minimum per info_hash parameter are stated assumptions.",
          "DESIGN.md section 2, C18"),
+ "C19": ("closed-world spawn inventory + dataflow of every JoinHandle into the watched vector + CFG reachability argument for the watchdog loop",
+         "Necessary conditions: every Builder::spawn / spawn_prometheus_endpoint result reaches join_handles.push on all paths that get to the watchdog; from the true edge of is_finished() no loop back edge is reachable (the only continuation is a return) and run() has no Ok return on any path; poll sleep constant 5 <= 9 s; worker closures return the worker's own Result and do not outlive it; no catch_unwind/resume_unwind in tracker crates (positive control present); all periodic glommio timer futures return Some on every path.",
+         "Not decided: glommio propagating task panics to LocalExecutor::run, actual latency (dependency/OS behaviour).",
+         "DESIGN.md section 2, C19"),
 }
 
 PENDING_REASON = "check under construction in this build phase (static rules designed in DESIGN.md section 2); not claimed until its rule set is validated both ways"
